@@ -124,6 +124,7 @@ package openid
 //@   ensures [C13.tokens-imply-fragment-default] err == nil && old(inv) ==> inv
 //@   ensures [C13.implicit-needs-grant] err == nil && old(applies) && old(ar.GetResponseTypes().Has("token")) ==> ar.GetClient().GetGrantTypes().Has("implicit")
 //@   ensures [C13.code-needs-grant] err == nil && old(applies) ==> ar.GetClient().GetGrantTypes().Has("authorization_code")
+//@   assert @call(CreateOpenIDConnectSession)#1 [C20.no-complete-code-as-storage-key] sigkey($arg2)
 //@   assert @call(CreateAuthorizeCodeSession)#1 [C02.stored-code-keeps-redirect-uri] len(c.AuthorizeExplicitGrantHandler.Config.GetSanitationWhiteList(ctx)) == 0 ==> formget($arg3.GetRequestForm(), "redirect_uri") == old(formget(ar.GetRequestForm(), "redirect_uri"))
 //@   ensures [C13.id-token-needs-implicit-grant] err == nil && ("id_token" in resp.GetParameters()) && !old("id_token" in resp.GetParameters()) ==> ar.GetClient().GetGrantTypes().Has("implicit")
 //@   ensures [C13.oidc-needs-redirect-uri-and-nonce] err == nil && old(applies) ==> old(len(formget(ar.GetRequestForm(), "redirect_uri")) > 0 && (len(formget(ar.GetRequestForm(), "nonce")) == 0 || len(formget(ar.GetRequestForm(), "nonce")) >= c.Config.GetMinParameterEntropy(ctx)) && (ar.GetResponseTypes().Has("id_token") ==> len(formget(ar.GetRequestForm(), "nonce")) > 0))
@@ -143,3 +144,81 @@ package openid
 //@   ensures [C13.oidc-needs-redirect-uri-and-nonce] err == nil && old(applies) ==> old(len(formget(ar.GetRequestForm(), "redirect_uri")) > 0)
 //@   ensures [C13.token-only-when-requested] (forall k string :: (k in resp.GetParameters()) == old(k in resp.GetParameters())) && ar.GetDefaultResponseMode() == old(ar.GetDefaultResponseMode())
 //@   ensures [C14.oidc-session-stored-with-code] err == nil && old(applies) ==> oidc_exists[resp.GetCode()] && len(resp.GetCode()) > 0
+//@   assert @call(CreateOpenIDConnectSession)#1 [C20.no-complete-code-as-storage-key] sigkey($arg2)
+
+// ---------------------------------------------------------------- C14 / C20: token-endpoint side of the OpenID Connect flows
+// sigkey(k): k is the signature part of some credential, not a complete credential (C20: storage never sees a complete code).
+//@ spec func sigkey(k string) bool = exists t string :: k == hmacsig(t)
+//@ interface OpenIDConnectRequestStorage.GetOpenIDConnectSession
+//@   modifies faults
+//@   ensures err == nil ==> oidc_exists[authorizeCode] && result != nil && result == oidc_req[authorizeCode] && faults == old(faults)
+//@   ensures err != nil && eis(err, fosite.ErrNotFound) ==> !oidc_exists[authorizeCode] && faults == old(faults)
+//@   ensures err != nil && !eis(err, fosite.ErrNotFound) ==> faults == old(faults) + 1
+//@ interface OpenIDConnectRequestStorage.DeleteOpenIDConnectSession
+//@   modifies oidc_exists, faults, tx_escaped
+//@   ensures tx_escaped == old(tx_escaped) + escapes(ctx, err)
+//@   ensures err == nil ==> oidc_exists == upd(old(oidc_exists), authorizeCode, false) && faults == old(faults)
+//@   ensures err != nil ==> oidc_exists == old(oidc_exists) && faults == old(faults) + 1
+
+//@ func (*IDTokenHandleHelper).GetAccessTokenHash
+//@   requires i != nil && requester != nil && responder != nil
+//@   requires implements(requester.GetSession(), Session) ==> cast(requester.GetSession(), Session).IDTokenHeaders() != nil
+//@   modifies hash_data, is_hash, hash_alg, buf_data
+//@   ensures [C14.hash-by-algorithm] result == token_hash(implements(requester.GetSession(), Session) ? hash_bits(cast(requester.GetSession(), Session).IDTokenHeaders()) : 256, responder.GetAccessToken())
+
+//@ func (*IDTokenHandleHelper).IssueExplicitIDToken
+//@   requires i != nil && i.IDTokenStrategy != nil && ar != nil && resp != nil
+//@   modifies fields(cast(ar.GetSession(), Session).IDTokenClaims()), resp.GetExtra("id_token")
+//@   ensures [C14.id-token-in-response] err == nil ==> resp.GetExtra("id_token") != nil
+
+// Code flow: the ID token is issued only for a stored OpenID Connect session with the openid scope and a subject, the
+// session is consumed, and at_hash is the hash of the access token of this very response.
+//@ func (*OpenIDConnectExplicitHandler).PopulateTokenEndpointResponse
+//@   let code = old(formget(requester.GetRequestForm(), "code"))
+//@   let stored = old(oidc_req[formget(requester.GetRequestForm(), "code")])
+//@   requires c != nil && requester != nil && responder != nil && requester.GetClient() != nil && c.OpenIDConnectRequestStorage != nil && c.IDTokenHandleHelper != nil && c.IDTokenHandleHelper.IDTokenStrategy != nil
+//@   requires forall r fosite.Requester :: implements(r.GetSession(), Session) ==> cast(r.GetSession(), Session).IDTokenClaims() != nil && cast(r.GetSession(), Session).IDTokenHeaders() != nil
+//@   modifies anyheap, oidc_exists, faults, tx_escaped, hash_data, is_hash, hash_alg, buf_data
+//@   ensures [C14.needs-oidc-session-and-subject] err == nil ==> old(oidc_exists[code]) && cast(stored, fosite.Requester).GetGrantedScopes().Has("openid") && requester.GetClient().GetGrantTypes().Has("authorization_code")
+//@   ensures [C14.oidc-session-consumed] err == nil ==> !oidc_exists[code]
+//@   assert @call(IssueExplicitIDToken)#1 [C14.at-hash-binds-access-token] claims.Subject != "" && claims.AccessTokenHash == token_hash(implements(requester.GetSession(), Session) ? hash_bits(cast(requester.GetSession(), Session).IDTokenHeaders()) : 256, responder.GetAccessToken())
+//@   assert @call(GetOpenIDConnectSession)#1 [C20.no-complete-code-as-storage-key] sigkey($arg2)
+//@   assert @call(DeleteOpenIDConnectSession)#1 [C20.no-complete-code-as-storage-key] sigkey($arg2)
+
+// Refresh: the handler resets expiry, jti, at_hash and c_hash; the populate step binds at_hash to the new access token, leaves
+// c_hash empty and draws a new jti.
+//@ func (*OpenIDConnectRefreshHandler).HandleTokenEndpointRequest
+//@   let claims = cast(request.GetSession(), Session).IDTokenClaims()
+//@   requires c != nil && request != nil && request.GetClient() != nil
+//@   requires implements(request.GetSession(), Session) ==> claims != nil
+//@   modifies fields(cast(request.GetSession(), Session).IDTokenClaims())
+//@   ensures [C14.refresh-resets-claims] err == nil ==> implements(request.GetSession(), Session) && request.GetGrantedScopes().Has("openid") && request.GetClient().GetGrantTypes().Has("refresh_token") && claims.ExpiresAt == 0 && claims.JTI == "" && claims.AccessTokenHash == "" && claims.CodeHash == ""
+//@ func (*OpenIDConnectRefreshHandler).PopulateTokenEndpointResponse
+//@   requires c != nil && requester != nil && responder != nil && requester.GetClient() != nil && c.IDTokenHandleHelper != nil && c.IDTokenHandleHelper.IDTokenStrategy != nil
+//@   requires implements(requester.GetSession(), Session) ==> cast(requester.GetSession(), Session).IDTokenClaims() != nil && cast(requester.GetSession(), Session).IDTokenHeaders() != nil
+//@   modifies anyheap, hash_data, is_hash, hash_alg, buf_data
+//@   ensures [C14.needs-oidc-session-and-subject] err == nil ==> requester.GetGrantedScopes().Has("openid") && requester.GetClient().GetGrantTypes().Has("refresh_token")
+//@   assert @call(IssueExplicitIDToken)#1 [C14.refresh-drops-c-hash] claims.Subject != "" && claims.CodeHash == "" && claims.JTI != "" && claims.AccessTokenHash == token_hash(hash_bits(sess.IDTokenHeaders()), responder.GetAccessToken())
+
+// Device flow: same rules; the stored session is looked up and deleted under the device code's signature.
+//@ func (*OpenIDConnectDeviceHandler).PopulateTokenEndpointResponse
+//@   requires c != nil && requester != nil && responder != nil && requester.GetClient() != nil && c.OpenIDConnectRequestStorage != nil && c.DeviceCodeStrategy != nil && c.IDTokenHandleHelper != nil && c.IDTokenHandleHelper.IDTokenStrategy != nil
+//@   requires forall r fosite.Requester :: implements(r.GetSession(), Session) ==> cast(r.GetSession(), Session).IDTokenClaims() != nil && cast(r.GetSession(), Session).IDTokenHeaders() != nil
+//@   modifies anyheap, oidc_exists, faults, tx_escaped, hash_data, is_hash, hash_alg, buf_data
+//@   ensures [C14.needs-oidc-session-and-subject] err == nil ==> requester.GetClient().GetGrantTypes().Has("urn:ietf:params:oauth:grant-type:device_code")
+//@   assert @call(IssueExplicitIDToken)#1 [C14.at-hash-binds-access-token] claims.Subject != "" && claims.AccessTokenHash == token_hash(implements(requester.GetSession(), Session) ? hash_bits(cast(requester.GetSession(), Session).IDTokenHeaders()) : 256, responder.GetAccessToken())
+//@   assert @call(DeleteOpenIDConnectSession)#1 [C14.oidc-session-consumed] $arg2 == signature
+//@   assert @call(DeleteOpenIDConnectSession)#1 [C20.no-complete-code-as-storage-key] $arg2 != deviceCode || deviceCode == signature
+//@ func (*OpenIDConnectExplicitHandler).CanHandleTokenEndpointRequest
+//@   pure
+//@   ensures result == requester.GetGrantTypes().ExactOne("authorization_code")
+//@ func (*OpenIDConnectRefreshHandler).CanHandleTokenEndpointRequest
+//@   pure
+//@   ensures result == requester.GetGrantTypes().ExactOne("refresh_token")
+//@ func (*OpenIDConnectDeviceHandler).CanHandleTokenEndpointRequest
+//@   pure
+//@   ensures result == requester.GetGrantTypes().ExactOne("urn:ietf:params:oauth:grant-type:device_code")
+//@ wiring OpenIDConnectExplicitHandler : OpenIDConnectRequestStorage, OpenIDConnectRequestValidator, Config, IDTokenHandleHelper
+//@ wiring OpenIDConnectRefreshHandler : IDTokenHandleHelper, Config
+//@ wiring OpenIDConnectDeviceHandler : OpenIDConnectRequestStorage, DeviceCodeStrategy, Config, IDTokenHandleHelper
+//@ wiring IDTokenHandleHelper : IDTokenStrategy
